@@ -30,7 +30,11 @@ import (
 
 func main() { kit.Main(kit.World{Name: "fsworld", Run: run, Enum: enumerate}) }
 
-var sizes = []int{0, 1, 4095, 32768, 32769, 100000, 1 << 20}
+var sizes = []int{0, 1, 4095, 32768, 32769, 100000, 1 << 20, sparseSize}
+
+// sparseSize: a source of three copy blocks whose middle block is all zeros
+// (what a sparse-aware copy would skip)
+const sparseSize = 98304
 
 var srcKinds = []string{"regular", "missing", "via-symlink"}
 
@@ -53,6 +57,13 @@ func (s scenario) String() string {
 
 func content(n int, salt byte) []byte {
 	b := make([]byte, n)
+	defer func() {
+		if n == sparseSize && salt == 1 {
+			for i := 32768; i < 65536; i++ {
+				b[i] = 0
+			}
+		}
+	}()
 	x := uint32(2463534242) + uint32(salt)
 	for i := range b {
 		x ^= x << 13
